@@ -257,6 +257,34 @@ func (c *c16ctx) checkChain(m dhcpv6.DHCPv6) {
 				}
 			}
 		}
+		// a history on a decoded copy of the chain: ask for the inner message, let
+		// the innermost relay level carry another message, ask again (seeded change
+		// C16-8: an inner-message cache not invalidated by edits of deeper levels)
+		if !broken && len(levels) >= 1 {
+			d, err := c16Decode(m.ToBytes())
+			if err != nil {
+				return
+			}
+			lv, _, br := walk6(d)
+			if br || len(lv) == 0 {
+				return
+			}
+			if _, err := d.GetInnerMessage(); err != nil {
+				return
+			}
+			other := &dhcpv6.Message{MessageType: dhcpv6.MessageTypeReply, TransactionID: dhcpv6.TransactionID{9, 8, 7}}
+			other.AddOption(dhcpv6.OptElapsedTime(0))
+			lv[len(lv)-1].UpdateOption(dhcpv6.OptRelayMessage(other))
+			got, err := d.GetInnerMessage()
+			if err != nil || got != other {
+				c.fail("inner-stale", line, "after the innermost relay level was given another message, GetInnerMessage on the outer level still returns the old one")
+			}
+			if d2, err := c16Decode(d.ToBytes()); err == nil {
+				if g2, err := d2.GetInnerMessage(); err != nil || sxMsg6(g2) != sxMsg6(other) {
+					c.fail("inner-stale", line, "after the innermost relay level was given another message, the chain still encodes the old one")
+				}
+			}
+		}
 	})
 }
 
@@ -382,6 +410,48 @@ func (c *c16ctx) inputKept(line string, m *dhcpv6.Message, before string) func()
 	}
 }
 
+// modsReuse: the caller's modifier slice is the caller's.  One slice with spare
+// capacity goes to the builder twice and then to another builder; every result
+// equals what fresh modifiers give (seeded change C16-7: slices.Insert shifting the
+// caller's slice in place).  build must return nil when the builder refuses.
+func (c *c16ctx) modsReuse(line string, build func(ms ...dhcpv6.Modifier) *dhcpv6.Message) {
+	sid := &dhcpv6.DUIDLL{HWType: 1, LinkLayerAddr: net.HardwareAddr{2, 0, 0, 0, 0, 7}}
+	fresh := func() []dhcpv6.Modifier {
+		return []dhcpv6.Modifier{dhcpv6.WithDNS(net.ParseIP("2001:db8::53")), dhcpv6.WithServerID(sid)}
+	}
+	show := func(m *dhcpv6.Message) string {
+		if m == nil {
+			return "refused"
+		}
+		q := *m
+		q.TransactionID = dhcpv6.TransactionID{}
+		return sxMsg6(&q)
+	}
+	ms := append(make([]dhcpv6.Modifier, 0, 8), fresh()...)
+	want := show(build(fresh()...))
+	if got := show(build(ms...)); got != want {
+		c.fail("modifiers-slice-reused", line, "builder(ms...) with spare capacity = "+got+", with an exact slice = "+want)
+		return
+	}
+	if got := show(build(ms...)); got != want {
+		c.fail("modifiers-slice-reused", line, "second builder(ms...) with the same slice = "+got+", the first = "+want)
+		return
+	}
+	// the same slice on another builder
+	req := &dhcpv6.Message{MessageType: dhcpv6.MessageTypeRequest, TransactionID: dhcpv6.TransactionID{1, 2, 3}}
+	req.AddOption(dhcpv6.OptClientID(sid))
+	other := func(ms ...dhcpv6.Modifier) *dhcpv6.Message {
+		r, err := dhcpv6.NewReplyFromMessage(req, ms...)
+		if err != nil {
+			return nil
+		}
+		return r
+	}
+	if got, want := show(other(ms...)), show(other(fresh()...)); got != want {
+		c.fail("modifiers-slice-reused", line, "the slice used above, given to NewReplyFromMessage(REQUEST) = "+got+", fresh modifiers give "+want)
+	}
+}
+
 func (c *c16ctx) checkAdvertise(m *dhcpv6.Message) {
 	line := "v6adv " + sxMsg6(m)
 	c.guard("adv-panic", line, func() {
@@ -407,6 +477,13 @@ func (c *c16ctx) checkAdvertise(m *dhcpv6.Message) {
 		if !sameOpt(firstOfCode(adv.Options.Options, dhcpv6.OptionClientID), cid) || len(allOfCode(adv.Options.Options, dhcpv6.OptionClientID)) != 1 {
 			c.fail("adv-cid", line, "client id not echoed exactly once")
 		}
+		c.modsReuse(line, func(ms ...dhcpv6.Modifier) *dhcpv6.Message {
+			r, err := dhcpv6.NewAdvertiseFromSolicit(m, ms...)
+			if err != nil {
+				return nil
+			}
+			return r
+		})
 	})
 }
 
@@ -503,6 +580,13 @@ func (c *c16ctx) checkReply(m *dhcpv6.Message) {
 		if (m.MessageType == dhcpv6.MessageTypeSolicit) != (firstOfCode(rep.Options.Options, dhcpv6.OptionRapidCommit) != nil) {
 			c.fail("reply-rapid-commit", line, "rapid commit present iff answering a SOLICIT: violated")
 		}
+		c.modsReuse(line, func(ms ...dhcpv6.Modifier) *dhcpv6.Message {
+			r, err := dhcpv6.NewReplyFromMessage(m, ms...)
+			if err != nil {
+				return nil
+			}
+			return r
+		})
 	})
 }
 
